@@ -96,6 +96,16 @@ func siteException(w *core.World, f *ssa.Function, callee string) (string, bool)
 			return reason, true
 		}
 	}
+	if f.Parent() != nil {
+		// a closure: the exception of the function it is written in
+		top := f
+		for top.Parent() != nil {
+			top = top.Parent()
+		}
+		if reason, ok := collabErrorExceptions[core.FuncKey(top)+" -> "+callee]; ok {
+			return reason + " (in a closure of that function)", true
+		}
+	}
 	if core.IsInlined(f) {
 		reason := ""
 		for _, k := range core.HostKeys(f) {
@@ -278,6 +288,9 @@ func errorDisciplineLocal(w *core.World, fn *ssa.Function, c ssa.CallInstruction
 			st, fk := fs.at, fs.fk
 			for _, ret := range core.Returns(fn) {
 				if e := errorOperand(ret); e != nil && core.CanFollow(st, ret) {
+					if core.FieldOf(e) == fk {
+						return "propagated", "stored in " + fk + " and returned from there"
+					}
 					for _, oc := range core.OriginCalls(e) {
 						if g := oc.Common().StaticCallee(); g != nil && g.Blocks != nil {
 							for _, gret := range core.Returns(g) {
@@ -390,7 +403,7 @@ func c07(w *core.World, r *core.Report) {
 				r.Info("MEMO-SUCCESS-ONLY", core.Site(retrieve, "store ready"), w.Pos(retrieve.Pos()), "no memoisation flag is written")
 			}
 			// a return before the GetSchema call must be guarded by a load of ready==true
-			for _, ret := range core.Returns(retrieve) {
+			for _, ret := range core.EffectiveReturns(retrieve) {
 				if core.InstrBefore(g, ret) {
 					continue
 				}
